@@ -346,3 +346,55 @@ def frag_queue():
         text += "def %s : Bool := %s\n" % (k, "true" if v else "false")
     text += "\nend Evp.Gen.Queue\n"
     return True, text, ""
+
+
+@fragment("CtorFrag")
+def frag_ctor():
+    """constructor member-initialiser tables of the classes with scalar (atomic counter) members"""
+    entries = []
+    specs = [("include/eventpp/eventqueue.h", "EventQueueBase"), ("include/eventpp/hetereventqueue.h", "HeterEventQueueBase"),
+             ("include/eventpp/callbacklist.h", "CallbackListBase")]
+    for rel, cls in specs:
+        raw = read_src(rel)
+        cut = raw.find("} //namespace internal_")
+        if cut < 0:
+            raise ValueError("end of namespace internal_ not found in %s" % rel)
+        src = strip_comments(raw[:cut])
+        # the data members: the last `private:` section (of the *Base class) that is a plain list of declarations
+        section = None
+        for pm in reversed(list(re.finditer(r"private:", src))):
+            close = src.find("};", pm.end())
+            cand = src[pm.end():close] if close > 0 else ""
+            if cand.strip() and "{" not in cand and "(" not in cand and ";" in cand:
+                section = cand
+                break
+        if section is None:
+            raise ValueError("member section of %s not found" % cls)
+        members = []
+        for decl in section.split(";"):
+            decl = decl.strip()
+            if not decl:
+                continue
+            name = re.split(r"\s+", decl)[-1]
+            scalar = "Atomic<" in decl
+            members.append((name, scalar))
+        if not members:
+            raise ValueError("no members parsed for %s" % cls)
+        # constructors: name(args) [noexcept] : init-list {
+        for cm in re.finditer(r"\n\t(?:explicit\s+)?%s\(([^)]*)\)\s*(?:noexcept)?\s*(:\s*[^{]*)?\{" % cls, src):
+            args = BoolExpr.norm(cm.group(1))
+            kind = "default" if args == "" else ("copy" if args.startswith("const" + cls) else ("move" if "&&" in args else "other"))
+            init = cm.group(2) or ""
+            inits = set(re.findall(r"(\w+)\s*\(", init))
+            delegates = cls in inits
+            for name, scalar in members:
+                entries.append((cls, kind, name, scalar, delegates or name in inits))
+    text = GEN_HEADER % "member-initialiser lists of EventQueueBase, HeterEventQueueBase, CallbackListBase constructors"
+    text += "namespace Evp.Gen.Ctor\n\nstructure Entry where\n  cls : String\n  ctor : String\n  member : String\n  scalar : Bool\n  initialised : Bool\nderiving DecidableEq, Repr\n\n"
+    text += "/-- one row per (class, constructor, data member): is the member named in the constructor's initialiser list\n    (or does the constructor delegate to one that names it)? `scalar` = the atomic counters -/\n"
+    text += "def table : List Entry := [\n"
+    text += ",\n".join('  ⟨"%s", "%s", "%s", %s, %s⟩' % (c, k, n, "true" if sc else "false", "true" if i else "false") for c, k, n, sc, i in entries)
+    text += "\n]\n\nend Evp.Gen.Ctor\n"
+    if not any(e[1] == "copy" for e in entries) or not any(e[3] for e in entries):
+        raise ValueError("constructor table incomplete")
+    return True, text, ""
